@@ -216,3 +216,8 @@ contract(f"{TC}::TunnelCommunity.on_data", "on_data.e2e-data-goes-to-the-applica
 # socket, enabled or not - is never taken over (a replayed create must not re-key an established hop); data is delivered only when it
 # comes from exactly the first hop's address (IP and port) and is attributed to the origin named in it
 on_create_and_on_data_contracts()
+
+
+# an exit entry keeps its keys in the table while its removal waits out the grace period: an answer from outside that arrives in that time
+# is still encrypted for the circuit, never sent in the clear (shared with C09)
+remove_exit_socket_grace_contract()
